@@ -26,7 +26,7 @@ pub fn quit_closure(quit_again: &QuitAgainS, stop_signal: Option<Signal>, stop_t
     requires old(env).quit_again@ < 255,
     ensures
         // first request: graceful with the configured stop signal and timeout; second: forced stop, no grace; further ones: abort
-        quit_effect(old(env), final(env), r, stop_signal, stop_timeout), // OBL:C08.cli.quit_escalates_graceful_forced_abort
+        quit_effect(old(env), final(env), r, stop_signal, stop_timeout), // OBL:C08+C06.cli.quit_escalates_graceful_forced_abort
         r.sigs == action.sigs,
 //@ item signal_gate
 //@ header
